@@ -126,7 +126,7 @@ pub fn h_set_clear_drain<T: Shape, const N: usize>(use_drain: bool) {
                 assert!(d.len() == pre.len - core::cmp::min(i, pre.len), "C10.Set::drain: exact len before every step");
                 let it = d.next();
                 if i < pre.len {
-                    assert!(it.is_some() && it.unwrap().same(&pre.slot(i).0), "C10.Set::drain: yields the stored elements");
+                    assert!(it.is_some() && pre.count(&it.unwrap()) == 1, "C10.Set::drain: yields stored elements");
                 } else {
                     assert!(it.is_none(), "C10.Set::drain: None after the end");
                 }
